@@ -42,6 +42,7 @@ type Engine struct {
 	canon     map[string]string
 	reLits    map[string]string
 	loopLock  map[string]map[int]string // function key -> loop ordinal -> signature, recorded on the unchanged tree
+	callLock  map[string]map[string]int // function key -> callee name -> number of call sites, recorded on the unchanged tree
 	localLock map[string]map[string][]int // function key -> local name -> positions among the function's locals
 }
 
@@ -62,6 +63,7 @@ func loadEngine(repoDir string, libDir string) (*Engine, error) {
 	}
 	e := &Engine{
 		loopLock: loadLoopLock(filepath.Join(libDir, "..", "loops.lock")),
+		callLock: loadCallLock(filepath.Join(libDir, "..", "loops.lock")),
 		localLock: loadLocalLock(filepath.Join(libDir, "..", "loops.lock")),
 		pkgs: map[string]*packages.Package{}, funcs: map[string]*FuncInfo{}, contracts: map[string]*Contract{},
 		specFuncs: map[string]*SpecFunc{}, nullable: map[string]bool{}, ghostFields: map[string]string{}, evalWanted: map[string][]string{}, evalValues: map[string]interface{}{}, evalDone: map[string]bool{}, notes: map[string]bool{}, repoDir: repoDir,
@@ -425,6 +427,30 @@ func loadLoopLock(path string) map[string]map[int]string {
 	return out
 }
 
+
+// loadCallLock reads the "call" lines of contracts/loops.lock: "call\t<function key>\t<callee name>\t<count>".
+func loadCallLock(path string) map[string]map[string]int {
+	out := map[string]map[string]int{}
+	data, err := os.ReadFile(path)
+	if err != nil {
+		return out
+	}
+	for _, l := range strings.Split(string(data), "\n") {
+		f := strings.Split(l, "\t")
+		if len(f) != 4 || f[0] != "call" {
+			continue
+		}
+		n, err := strconv.Atoi(f[3])
+		if err != nil {
+			continue
+		}
+		if out[f[1]] == nil {
+			out[f[1]] = map[string]int{}
+		}
+		out[f[1]][f[2]] = n
+	}
+	return out
+}
 
 // loadLocalLock reads the "local" lines of contracts/loops.lock: "local\t<function key>\t<name>\t<position>".
 func loadLocalLock(path string) map[string]map[string][]int {
